@@ -17,7 +17,7 @@ Driver handler for C19.
 Encodings: `<opt>` = `(none)` | `(some (s …))`; `<spec>` = `(spec rows|cols|cross <HP>
 <opt name> ((in (s expr) <opt>)…) ((out <opt name> <opt values>)…) <opt label> ((s ann)…)
 ((rule ((s)…) ((s)…) ((s)…))…))`; `<decor>` = `(decor (s hp) ((s n)…) <bool split> (s blank)
-((s blank)…) <bool merge>)`; `<layout>` = `(layout (w…) (h…) boxRight)`; `<plane>` = `(plane <opt name>
+((s blank)…) <bool merge> ((s in-blank)…) ((s out-blank)…))`; `<layout>` = `(layout (w…) (h…) boxRight)`; `<plane>` = `(plane <opt name>
 (<cell>…)…)` with `<cell>` = `(r id (s text))` | `vo` | `va` | `ho` | `ha` | `mx` | `hx` | `vx`.
 -/
 
@@ -98,14 +98,16 @@ def specS (t : TableSpec) : Sexp :=
       .list [.atom "rule", .list (r.ins.map txt), .list (r.outs.map txt), .list (r.anns.map txt)])]
 
 def decor? : Sexp → Option Decor
-  | .list [.atom "decor", hp, .list nos, split, blank, .list blanks, merge] => do
+  | .list [.atom "decor", hp, .list nos, split, blank, .list blanks, merge, .list inb, .list outb] => do
     let hp ← Sexp.chars? hp
     let nos ← texts? nos
     let split ← Sexp.bool? split
     let blank ← Sexp.chars? blank
     let blanks ← texts? blanks
     let merge ← Sexp.bool? merge
-    pure ⟨hp, nos, split, blank, blanks, merge⟩
+    let inb ← texts? inb
+    let outb ← texts? outb
+    pure ⟨hp, nos, split, blank, blanks, merge, inb, outb⟩
   | _ => none
 
 def layout? : Sexp → Option Layout
@@ -147,11 +149,7 @@ def errName : Err → String
   | .invalidSize k => s!"invalidSize:{k}"
 
 def siteName : Site → String
-  | .hpFirstUnwrap => "hpFirstUnwrap" | .hpLastUnwrap => "hpLastUnwrap"
-  | .horzSkipIndex => "horzSkipIndex" | .horzRuleIndex => "horzRuleIndex"
-  | .vertLastRow => "vertLastRow" | .vertSkipIndex => "vertSkipIndex"
-  | .pivotIndex => "pivotIndex" | .pivotRemove => "pivotRemove"
-  | .rectSub => "rectSub" | .builderIndex => "builderIndex"
+  | .builderIndex => "builderIndex"
 
 def outcomeS : Outcome TableSpec → Sexp
   | .ok t => .list [.atom "ok", specS t]
@@ -182,7 +180,8 @@ def slack? : Sexp → Option Slack
 
 def decorS (d : Decor) : Sexp :=
   .list [.atom "decor", txt d.hp, .list (d.ruleNos.map txt), Sexp.ofBool d.split, txt d.hpBlank,
-    .list (d.annBlanks.map txt), Sexp.ofBool d.merge]
+    .list (d.annBlanks.map txt), Sexp.ofBool d.merge, .list (d.inBlanks.map txt),
+    .list (d.outBlanks.map txt)]
 
 def layoutS (L : Layout) : Sexp :=
   .list [.atom "layout", .list (L.colW.map Sexp.ofNat), .list (L.rowH.map Sexp.ofNat), Sexp.ofNat L.boxRight]
